@@ -481,8 +481,10 @@ func (c *Client) recv(keepaliveQuit chan<- struct{}, keepaliveDone <-chan struct
 			c.disconnected(c.Session.SMState)
 			return
 		case stanza.Message, stanza.Presence, *stanza.IQ:
-			// Only stanzas are counted for stream management
-			c.Session.SMState.Inbound++
+			// Only stanzas are counted for stream management, and only those of the stream-managed session
+			if c.Session.smActive {
+				c.Session.SMState.Inbound++
+			}
 		}
 		// Do normal route processing in a go-routine so we can immediately
 		// start receiving other stanzas. This also allows route handlers to
